@@ -47,4 +47,19 @@ PROPS = {
         "assumptions": COMMON_ASSUME,
         "explanation": "theorems: chunked reads with any buffer sizes concatenate to the content; create session buffers exactly the bytes; append continues at the end; flush/drop publish exactly the buffer and a later reader sees it; metadata len; directories 0; io::copy identity",
     },
+    "C08": {
+        "module": "VfsModel.Props.C08",
+        "namespace": "Vfs.C08",
+        "required_theorems": ["overlay_all_preserve", "overlay_observers_pure", "lower_leaf_unchanged", "lower_leaf_unchanged_alt",
+                              "lower_log_unchanged", "observers_log_clean"],
+        "streams": [("record", ["--prop", "C08"])],
+        "rule": "record stream: overlays with 2-4 layers over memory and physical leaves, altroot layers and a nested overlay as upper layer, pre-populated layers (types consistent across layers), "
+                "a recording FileSystem wrapper around every layer; histories of 25 (quick) / 50 (thorough) path-API calls incl. wrong-type, failing, composite and time-setting calls; after every call the recorded "
+                "(layer, method, path) list and a deep snapshot (type, bytes, creation and modification time) of every lower layer; a case is distinct by (config, op, result, recorded calls)",
+        "modelled_not_verified": ["MemoryFS::open_file stamps the access time of the entry it serves (inside the layer, like the OS for a physical file): snapshots and the SameLeaf invariant ignore the access time",
+                                  "the theorem is about the model's Overlay.fs; it is tied to src/impls/overlay.rs by comparing results, snapshots and the multiset of recorded trait calls per operation"],
+        "assumptions": COMMON_ASSUME + ["layers whose filesystem value is the upper layer's are reached through the upper layer (hypothesis `same`); distinct layers live on distinct leaves in the concrete corollary"],
+        "explanation": "theorems (for arbitrary inner filesystems and an arbitrary world invariant): every overlay method preserves what the upper layer's methods and the lower layers' OBSERVER methods preserve, "
+                       "so nothing but observers is ever called on a lower layer; overlay observers preserve what the layers' observers preserve; instances: lower leaves unchanged (any number of layers, also under an altroot), no mutating call in the log of a lower recorder",
+    },
 }
